@@ -1,172 +1,231 @@
 """Translator for C03/C14: regenerates lean/PyramidModel/Gen/C03Tables.lean from the source tree.
 
-What is read (python `ast`, nothing is executed):
-  * config/views.py  `add_default_view_predicates`  -> the default predicate names, in order
-  * config/predicates.py `MAX_ORDER = 1 << K`, and in `PredicateList.make` the two arithmetic shapes
-       `weights.append(1 << n + 1)`  and  `order = (MAX_ORDER - score) // (len(preds) + 1)`
-  * view.py `_find_views`: the loop `for req_type, ctx_type in itertools.product(R.__sro__, C.__sro__)`
-       (which SRO is the outer one), the order of `source_ifaces = (classifier, req, ctx)` and the default
-       `view_types` tuple
-  * config/views.py `register_view`: the tuple of view types probed for an old view
-Anything with an unexpected shape is emitted as the string "unknown" / a sentinel number so that the
-theorems over the table (Props/C03.lean, `decide`d) and the model's correspondence fail rather than guess.
+Robustness round: every generated fact is now a BEHAVIOURAL table obtained by RUNNING the code of the tree under
+test (in a child interpreter whose sys.path starts with `src_root`, with a timeout), not by matching its AST:
+
+  * default predicate order      `Configurator().get_predlist('view')`: the names of the predicate sorter, cross-checked
+                                 against the order in which `PredicateList.make` returns the predicates of a call that
+                                 uses all of them
+  * order arithmetic             `PredicateList.make` on the empty set, every single default predicate, every pair,
+                                 every triple, all of them, and two `custom=predvalseq(..)` calls with 2 / 3 predicates
+                                 of the SAME name (tells `|` from `+`): rows (positions of the returned predicates,
+                                 observed `order`).  MAX_ORDER, the addend of `1 << n + K` and of `// (len + K)` are the
+                                 unique parameters (K_shift in 0..3, K_div in 1..3, MAX from the empty row) that
+                                 reproduce ALL rows with an or-ed score; the rows themselves are emitted as
+                                 `orderProbes` and Props/C03.lean decides the model's closed form over the whole table.
+  * `_find_views` iteration      a scratch `Registry` with a marker registered for every (request iface, context iface,
+                                 view type) of two 3-element resolution orders (27 markers); the order of the returned
+                                 list gives the outer loop, the binding order of the triple (a swapped triple finds
+                                 nothing) and the inner `view_types` tuple; emitted also as `findViewsProbe`
+  * `register_view` probe tuple  `add_view` on an autocommitting scratch Configurator whose `registry.adapters` logs the
+                                 `registered(...)` calls for the probe's view name
+
+Fail closed: any exception, timeout, import from another tree, incomplete / inconsistent observation makes the fact
+"unknown" / 0 / false / an empty table, and the obligations in Props/C03.lean (whole-table `decide`) fail.
+No AST extraction is left in this translator.
 """
-import ast, os
+import json, os, subprocess, sys
 
 summary = {}
 
-
-def _find_func(tree, name):
-    for node in ast.walk(tree):
-        if isinstance(node, (ast.FunctionDef,)) and node.name == name:
-            return node
-    return None
-
-
-def _names_of_tuple(node):
-    if isinstance(node, (ast.Tuple, ast.List)) and all(isinstance(e, ast.Name) for e in node.elts):
-        return [e.id for e in node.elts]
-    return None
+_PROBE = r'''
+import sys, os, json, itertools, warnings
+src = sys.argv[1]
+sys.path.insert(0, src)
+warnings.simplefilter('ignore')
+out = {}
 
 
-def _pred_names(tree):
-    f = _find_func(tree, 'add_default_view_predicates')
-    if f is None:
+def guard(key, fn):
+    try:
+        out[key] = fn()
+    except BaseException as e:          # fail closed, whatever it is
+        out[key] = {'error': '%s: %s' % (type(e).__name__, str(e)[:200])}
+
+
+import pyramid
+out['pyramid_file'] = os.path.realpath(pyramid.__file__)
+
+
+def probe_predicates():
+    from pyramid.config import Configurator
+    from pyramid.registry import predvalseq
+    from pyramid.interfaces import IRequest
+    config = Configurator(autocommit=True)
+    predlist = config.get_predlist('view')
+    ordered = list(predlist.sorter.sorted())
+    names = [n for n, _ in ordered]
+    factories = [f for _, f in ordered]
+    if len(set(names)) != len(names) or len(set(map(id, factories))) != len(factories):
+        raise ValueError('duplicate predicate names/factories')
+
+    class Ctx:
+        pass
+    f1 = lambda context, request: True
+    f2 = lambda context, request: False
+    f3 = lambda context, request: True
+    values = {'xhr': True, 'request_method': 'GET', 'path_info': '/a', 'request_param': 'a', 'header': 'X-A',
+              'accept': 'text/html', 'containment': Ctx, 'request_type': IRequest, 'match_param': 'a=1',
+              'physical_path': '/a', 'is_authenticated': True, 'effective_principals': 'x',
+              'custom': predvalseq((f1,))}
+
+    def row(kw):
+        order, preds, phash = predlist.make(config, **dict(kw))
+        kinds = []
+        for p in preds:
+            hits = [i for i, f in enumerate(factories) if type(p) is f]
+            if len(hits) != 1:
+                raise ValueError('predicate object of unexpected type %r' % type(p))
+            kinds.append(hits[0])
+        if isinstance(order, bool) or not isinstance(order, int) or order < 0:
+            raise ValueError('order is not a natural number: %r' % (order,))
+        return [kinds, order]
+
+    rows = []
+    idx = range(len(names))
+    for k in (0, 1, 2, 3):
+        for sub in itertools.combinations(idx, k):
+            r = row({names[i]: values[names[i]] for i in sub})
+            if r[0] != list(sub):
+                raise ValueError('make returned predicates %r for the names at %r' % (r[0], sub))
+            rows.append(r)
+    full = row({n: values[n] for n in names})
+    if full[0] != list(idx):
+        raise ValueError('make does not iterate the predicate names in sorter order: %r' % (full[0],))
+    rows.append(full)
+    if 'custom' in names:
+        c = names.index('custom')
+        r2 = row({'custom': predvalseq((f1, f2))})
+        r3 = row({'custom': predvalseq((f1, f2, f3)), names[0]: values[names[0]]})
+        if r2[0] != [c, c] or r3[0] != ([0, c, c, c] if c != 0 else [c, c, c]):
+            raise ValueError('unexpected predicates for custom=predvalseq(..)')
+        rows += [r2, r3]
+    else:
+        raise ValueError('no custom predicate: cannot tell | from +')
+    from pyramid.config import predicates as cp
+    return {'names': names, 'rows': rows, 'module_max_order': getattr(cp, 'MAX_ORDER', None)}
+
+
+def probe_find_views():
+    from zope.interface import Interface
+    from zope.interface.interface import InterfaceClass
+    from pyramid.registry import Registry
+    from pyramid.interfaces import IView, ISecuredView, IMultiView, IViewClassifier
+    from pyramid.view import _find_views
+    R1 = InterfaceClass('R1', (Interface,))
+    R2 = InterfaceClass('R2', (R1,))
+    C1 = InterfaceClass('C1', (Interface,))
+    C2 = InterfaceClass('C2', (C1,))
+    rs, cs = tuple(R2.__sro__), tuple(C2.__sro__)
+    if rs != (R2, R1, Interface) or cs != (C2, C1, Interface):
+        raise ValueError('unexpected resolution orders')
+    types = {'IView': IView, 'ISecuredView': ISecuredView, 'IMultiView': IMultiView}
+    registry = Registry('c03probe')
+    markers = {}
+    for qi, q in enumerate(rs):
+        for ci, c in enumerate(cs):
+            for tn, t in types.items():
+                m = ('marker', qi, ci, tn)
+                markers[m] = [qi, ci, tn]
+                registry.registerAdapter(m, (IViewClassifier, q, c), t, name='c03probe')
+    first = _find_views(registry, R2, C2, 'c03probe')
+    again = _find_views(registry, R2, C2, 'c03probe')
+    other = _find_views(registry, R2, C2, 'c03probe-unregistered')
+    if list(first) != list(again):
+        raise ValueError('two identical lookups differ')
+    if list(other):
+        raise ValueError('a name nobody registered finds views')
+    return [markers[m] for m in first]
+
+
+def probe_register_view():
+    from pyramid.config import Configurator
+    config = Configurator(autocommit=True)
+    real = config.registry.adapters
+    log = []
+
+    class Adapters:
+        def __getattr__(self, name):
+            return getattr(real, name)
+
+        def registered(self, required, provided, name=''):
+            log.append((tuple(required), provided, name))
+            return real.registered(required, provided, name)
+    config.registry.adapters = Adapters()
+    try:
+        config.add_view(lambda context, request: None, name='c03probe')
+    finally:
+        config.registry.adapters = real
+    mine = [e for e in log if e[2] == 'c03probe']
+    if len({e[0] for e in mine}) != 1:
+        raise ValueError('probes for more than one (or no) triple: %d' % len({e[0] for e in mine}))
+    return [e[1].__name__ for e in mine]
+
+
+guard('predicates', probe_predicates)
+guard('find_views', probe_find_views)
+guard('register_view', probe_register_view)
+sys.stdout.write('\nC03PROBE ' + json.dumps(out) + '\n')
+'''
+
+
+def run_probe(src_root, timeout=120):
+    """observations of the tree under `src_root`, or {'error': ...}"""
+    try:
+        p = subprocess.run([sys.executable, '-c', _PROBE, src_root], stdout=subprocess.PIPE, stderr=subprocess.PIPE,
+                           timeout=timeout, cwd=src_root)
+        lines = [l for l in p.stdout.decode(errors='replace').splitlines() if l.startswith('C03PROBE ')]
+        if not lines:
+            return {'error': 'probe produced no result (rc=%s): %s' % (p.returncode, p.stderr.decode(errors='replace')[-400:])}
+        obs = json.loads(lines[-1][len('C03PROBE '):])
+    except Exception as e:
+        return {'error': 'probe failed: %s: %s' % (type(e).__name__, str(e)[:300])}
+    want = os.path.realpath(os.path.join(src_root, 'pyramid')) + os.sep
+    if not str(obs.get('pyramid_file', '')).startswith(want):
+        return {'error': 'probe imported pyramid from %s, not from %s' % (obs.get('pyramid_file'), want)}
+    return obs
+
+
+def _bad(v):
+    return not v or (isinstance(v, dict) and 'error' in v)
+
+
+def _fit_arithmetic(rows):
+    """the unique (MAX_ORDER, K_shift, K_div) that reproduces every probed row with an or-ed score, else None"""
+    empty = [r for r in rows if r[0] == []]
+    if len(empty) != 1:
         return None
-    for node in ast.walk(f):
-        if isinstance(node, ast.For) and isinstance(node.iter, (ast.Tuple, ast.List)):
-            out = []
-            for e in node.iter.elts:
-                if not (isinstance(e, ast.Tuple) and len(e.elts) == 2 and isinstance(e.elts[0], ast.Constant)
-                        and isinstance(e.elts[0].value, str)):
-                    return None
-                out.append(e.elts[0].value)
-            # the loop body must be exactly self.add_view_predicate(name, factory)
-            body = node.body
-            if not (len(body) == 1 and isinstance(body[0], ast.Expr) and isinstance(body[0].value, ast.Call)
-                    and isinstance(body[0].value.func, ast.Attribute) and body[0].value.func.attr == 'add_view_predicate'
-                    and len(body[0].value.args) == 2 and not body[0].value.keywords):
-                return None
-            return out
-    return None
+    e = empty[0][1]
+    fits = []
+    for kd in (1, 2, 3):
+        for mx in sorted({e * kd + r for r in range(kd)}):
+            for ks in (0, 1, 2, 3):
+                ok = True
+                for kinds, order in rows:
+                    score = 0
+                    for k in kinds:
+                        score |= 1 << (k + ks)
+                    if mx - score < 0 or (mx - score) // (len(kinds) + kd) != order:
+                        ok = False
+                        break
+                if ok:
+                    fits.append((mx, ks, kd))
+    return fits[0] if len(fits) == 1 else None
 
 
-def _max_order(tree):
-    for node in tree.body:
-        if isinstance(node, ast.Assign) and len(node.targets) == 1 and isinstance(node.targets[0], ast.Name) \
-                and node.targets[0].id == 'MAX_ORDER':
-            v = node.value
-            if isinstance(v, ast.BinOp) and isinstance(v.op, ast.LShift) and isinstance(v.left, ast.Constant) \
-                    and isinstance(v.right, ast.Constant) and v.left.value == 1:
-                return 1 << v.right.value
-            if isinstance(v, ast.Constant) and isinstance(v.value, int):
-                return v.value
-    return None
-
-
-def _make_shapes(tree):
-    """(weight shift addend, divisor addend) or None"""
-    f = _find_func(tree, 'make')
-    if f is None:
+def _find_views_shape(seq):
+    """(request_major, triple_order_ok, view_types) from the observed marker sequence, else None"""
+    if _bad(seq) or len(seq) != 27 or len({tuple(x) for x in seq}) != 27:
         return None
-    shift = div = None
-    for node in ast.walk(f):
-        # weights.append(1 << n + 1)
-        if isinstance(node, ast.Call) and isinstance(node.func, ast.Attribute) and node.func.attr == 'append' \
-                and isinstance(node.func.value, ast.Name) and node.func.value.id == 'weights' and len(node.args) == 1:
-            a = node.args[0]
-            if isinstance(a, ast.BinOp) and isinstance(a.op, ast.LShift) and isinstance(a.left, ast.Constant) and a.left.value == 1 \
-                    and isinstance(a.right, ast.BinOp) and isinstance(a.right.op, ast.Add) \
-                    and isinstance(a.right.left, ast.Name) and a.right.left.id == 'n' \
-                    and isinstance(a.right.right, ast.Constant):
-                shift = a.right.right.value
-            else:
-                return None
-        # order = (MAX_ORDER - score) // (len(preds) + 1)
-        if isinstance(node, ast.Assign) and len(node.targets) == 1 and isinstance(node.targets[0], ast.Name) \
-                and node.targets[0].id == 'order':
-            v = node.value
-            ok = (isinstance(v, ast.BinOp) and isinstance(v.op, ast.FloorDiv)
-                  and isinstance(v.left, ast.BinOp) and isinstance(v.left.op, ast.Sub)
-                  and isinstance(v.left.left, ast.Name) and v.left.left.id == 'MAX_ORDER'
-                  and isinstance(v.left.right, ast.Name) and v.left.right.id == 'score'
-                  and isinstance(v.right, ast.BinOp) and isinstance(v.right.op, ast.Add)
-                  and isinstance(v.right.left, ast.Call) and isinstance(v.right.left.func, ast.Name)
-                  and v.right.left.func.id == 'len' and isinstance(v.right.right, ast.Constant))
-            if not ok:
-                return None
-            div = v.right.right.value
-    # score must be accumulated with `|`
-    ors = [n for n in ast.walk(f) if isinstance(n, ast.Assign) and isinstance(n.targets[0], ast.Name)
-           and n.targets[0].id == 'score' and isinstance(n.value, ast.BinOp)]
-    if len(ors) != 1 or not isinstance(ors[0].value.op, ast.BitOr):
+    vtypes = [t for _, _, t in seq[:3]]
+    if len(set(vtypes)) != 3:
         return None
-    if shift is None or div is None:
-        return None
-    return shift, div
-
-
-def _find_views_shape(tree):
-    """(request_major: bool, source order ok: bool, view_types list) or None"""
-    f = _find_func(tree, '_find_views')
-    if f is None:
-        return None
-    major = None
-    src_ok = None
-    vtypes = None
-    loopvars = None
-    for node in ast.walk(f):
-        if isinstance(node, ast.For) and isinstance(node.iter, ast.Call):
-            c = node.iter
-            fn = c.func
-            if isinstance(fn, ast.Attribute) and fn.attr == 'product' and len(c.args) == 2 and not c.keywords:
-                def sro_of(a):
-                    if isinstance(a, ast.Attribute) and a.attr == '__sro__' and isinstance(a.value, ast.Name):
-                        return a.value.id
-                    return None
-                a0, a1 = sro_of(c.args[0]), sro_of(c.args[1])
-                tv = _names_of_tuple(node.target)
-                if a0 is None or a1 is None or tv is None or len(tv) != 2:
-                    return None
-                loopvars = {tv[0]: a0, tv[1]: a1}
-                if (a0, a1) == ('request_iface', 'context_iface'):
-                    major = True
-                elif (a0, a1) == ('context_iface', 'request_iface'):
-                    major = False
-                else:
-                    return None
-        if isinstance(node, ast.Assign) and isinstance(node.targets[0], ast.Name) and node.targets[0].id == 'source_ifaces':
-            names = _names_of_tuple(node.value)
-            if names is None or len(names) != 3 or loopvars is None:
-                return None
-            src_ok = (names[0] == 'view_classifier' and loopvars.get(names[1]) == 'request_iface'
-                      and loopvars.get(names[2]) == 'context_iface')
-        if isinstance(node, ast.Assign) and isinstance(node.targets[0], ast.Name) and node.targets[0].id == 'view_types':
-            vtypes = _names_of_tuple(node.value)
-    if major is None or src_ok is None or vtypes is None:
-        return None
-    # the nested `for view_type in view_types` must be inside the product loop
-    inner = False
-    for node in ast.walk(f):
-        if isinstance(node, ast.For) and isinstance(node.iter, ast.Call):
-            for sub in ast.walk(node):
-                if sub is not node and isinstance(sub, ast.For) and isinstance(sub.iter, ast.Name) and sub.iter.id == 'view_types':
-                    inner = True
-    if not inner:
-        return None
-    return major, src_ok, vtypes
-
-
-def _register_types(tree):
-    f = _find_func(tree, 'register_view')
-    if f is None:
-        return None
-    for node in f.body:
-        for sub in ast.walk(node):
-            if isinstance(sub, ast.For) and isinstance(sub.target, ast.Name) and sub.target.id == 'view_type':
-                names = _names_of_tuple(sub.iter)
-                if names and len(names) == 3:
-                    return names
+    req_major = [[q, c, t] for q in range(3) for c in range(3) for t in vtypes]
+    ctx_major = [[q, c, t] for c in range(3) for q in range(3) for t in vtypes]
+    if seq == req_major:
+        return True, True, vtypes
+    if seq == ctx_major:
+        return False, True, vtypes
     return None
 
 
@@ -175,66 +234,95 @@ def _lean_str_list(xs):
 
 
 def generate(src_root):
-    p = os.path.join(src_root, 'pyramid')
-    views = ast.parse(open(os.path.join(p, 'config', 'views.py')).read())
-    preds = ast.parse(open(os.path.join(p, 'config', 'predicates.py')).read())
-    view = ast.parse(open(os.path.join(p, 'view.py')).read())
-    names = _pred_names(views)
-    mo = _max_order(preds)
-    shapes = _make_shapes(preds)
-    fv = _find_views_shape(view)
-    rt = _register_types(views)
+    obs = run_probe(src_root)
     unknown = []
-    if names is None:
-        names = ['unknown']; unknown.append('add_default_view_predicates')
-    if mo is None:
-        mo = 0; unknown.append('MAX_ORDER')
-    if shapes is None:
-        shapes = (0, 0); unknown.append('PredicateList.make arithmetic')
+    if 'error' in obs:
+        unknown.append(obs['error'])
+        obs = {}
+    pr = obs.get('predicates')
+    names, rows, fit = ['unknown'], [], None
+    if _bad(pr):
+        unknown.append('PredicateList.make probe: %s' % ((pr or {}).get('error', 'missing'),))
+    else:
+        ok_names = isinstance(pr.get('names'), list) and pr['names'] and all(
+            isinstance(n, str) and n.isidentifier() for n in pr['names'])
+        if not ok_names:
+            unknown.append('default predicate names')
+        else:
+            names = pr['names']
+            rows = pr['rows']
+            fit = _fit_arithmetic(rows)
+            if fit is None:
+                unknown.append('PredicateList.make arithmetic (no unique closed form fits the %d probed rows)' % len(rows))
+            elif pr.get('module_max_order') != fit[0]:
+                unknown.append('MAX_ORDER constant (%r) differs from the observed one (%r)' % (pr.get('module_max_order'), fit[0]))
+                fit = None
+    mo, shift, div = fit if fit else (0, 0, 0)
+    fv_seq = obs.get('find_views')
+    fv = _find_views_shape(fv_seq)
     if fv is None:
-        fv = (False, False, ['unknown']); unknown.append('_find_views loop')
-    if rt is None:
-        rt = ['unknown']; unknown.append('register_view view types')
+        unknown.append('_find_views probe: %s' % (fv_seq.get('error') if isinstance(fv_seq, dict) else
+                                                  'unexpected sequence of %d markers' % len(fv_seq or [])))
+        fv = (False, False, ['unknown'])
+        fv_seq = fv_seq if isinstance(fv_seq, list) else []
+    rt = obs.get('register_view')
+    if _bad(rt) or not all(isinstance(x, str) and x.isidentifier() for x in rt):
+        unknown.append('register_view probe: %s' % (rt.get('error') if isinstance(rt, dict) else rt))
+        rt = ['unknown']
     summary.clear()
-    summary.update({'pred_names': names, 'max_order': mo, 'weight_shift_plus': shapes[0], 'order_div_plus': shapes[1],
-                    'request_major': fv[0], 'source_ifaces_order_ok': fv[1], 'view_types': fv[2],
-                    'register_view_types': rt, 'unknown': unknown})
-    text = '''/- GENERATED by extract/c03.py from src/pyramid (config/views.py, config/predicates.py, view.py).
-   Do not edit: rewritten on every check.  "unknown" / 0 entries mean the translator did not recognise the source. -/
+    summary.update({'pred_names': names, 'max_order': mo, 'weight_shift_plus': shift, 'order_div_plus': div,
+                    'order_probe_rows': len(rows), 'request_major': fv[0], 'source_ifaces_order_ok': fv[1],
+                    'view_types': fv[2], 'find_views_probe_len': len(fv_seq), 'register_view_types': rt,
+                    'how': 'probed by running the tree under test (extract/c03.py child interpreter)',
+                    'unknown': unknown})
+    row_txt = ',\n  '.join('([%s], %d)' % (', '.join(str(k) for k in kinds), order) for kinds, order in rows)
+    seq_txt = ', '.join('(%d, %d, "%s")' % (q, c, t) for q, c, t in fv_seq
+                        if isinstance(q, int) and isinstance(c, int) and str(t).isidentifier())
+    text = '''/- GENERATED by extract/c03.py by RUNNING src/pyramid (config/views.py, config/predicates.py, view.py) on probe
+   inputs.  Do not edit: rewritten on every check.  "unknown" / 0 / empty entries mean a probe failed or was inconsistent. -/
 namespace Pyr.Gen.C03
 
-/-- `add_default_view_predicates`: predicate names in registration (= weight) order -/
+/-- default view predicate names in weight order (order in which `PredicateList.make` visits them) -/
 def predNames : List String := %s
 
-/-- `MAX_ORDER` -/
+/-- `MAX_ORDER` (= observed `order` of the empty predicate list, and the module constant) -/
 def maxOrder : Nat := %d
 
-/-- `weights.append(1 << n + K)`: K -/
+/-- `1 << n + K`: the K fitting every probed row -/
 def weightShiftPlus : Nat := %d
 
-/-- `order = (MAX_ORDER - score) // (len(preds) + K)`: K -/
+/-- `order = (MAX_ORDER - score) // (len(preds) + K)`: the K fitting every probed row -/
 def orderDivPlus : Nat := %d
 
-/-- `_find_views`: `itertools.product(request_iface.__sro__, context_iface.__sro__)` (request SRO is the outer loop) -/
+/-- `PredicateList.make` observed: (positions of the returned predicates, returned `order`) for the empty set, every
+single default predicate, every pair, every triple, all of them, and two calls with several `custom` predicates -/
+def orderProbes : List (List Nat × Nat) := [
+  %s
+]
+
+/-- `_find_views`: the request resolution order is the outer loop -/
 def requestMajor : Bool := %s
 
-/-- `source_ifaces = (view_classifier, req_type, ctx_type)` with the loop variables bound in that order -/
+/-- views are looked up under (classifier, request iface, context iface) in that order -/
 def sourceIfacesOk : Bool := %s
 
 /-- default `view_types` tuple of `_find_views` (inner loop) -/
 def viewTypes : List String := %s
 
-/-- the tuple probed by `register_view` for a previously registered view -/
+/-- `_find_views` observed on a scratch registry holding a marker for every (request iface index, context iface index,
+view type) of two 3-element resolution orders: the returned markers, in order -/
+def findViewsProbe : List (Nat × Nat × String) := [%s]
+
+/-- the view types `register_view` asks `registered(...)` for, in order, when nothing is registered yet -/
 def registerViewTypes : List String := %s
 
 end Pyr.Gen.C03
-''' % (_lean_str_list(names), mo, shapes[0], shapes[1], 'true' if fv[0] else 'false', 'true' if fv[1] else 'false',
-       _lean_str_list(fv[2]), _lean_str_list(rt))
+''' % (_lean_str_list(names), mo, shift, div, row_txt, 'true' if fv[0] else 'false', 'true' if fv[1] else 'false',
+       _lean_str_list(fv[2]), seq_txt, _lean_str_list(rt))
     return {'PyramidModel/Gen/C03Tables.lean': text}
 
 
 if __name__ == '__main__':
-    import sys
     for k, v in generate(sys.argv[1] if len(sys.argv) > 1 else '/repo/src').items():
         print(v)
     print(summary)
